@@ -303,6 +303,9 @@ func runC11(c *core.Ctx) core.Meta {
 	pe := NewPkgInfo(c, "amd/emu")
 
 	checkCopySiblings(c, pd)
+	// R11.13: a copy reads its host source when it is processed, so that it observes what earlier
+	// commands of its queue wrote there (c12.go, R12.15); EnqueueMemCopyD2D stages its tail this way
+	checkHostDataAtProcessingTime(c, pd, "R11.13")
 
 	// ---------------- R11.1 overlap predicate ----------------
 	st1 := c.Rule("R11.1", "memRangeOverlap(s1,e1,s2,e2) equals s1<e2 && s2<e1 on every weak ordering of its four arguments with s1<e1 and s2<e2 (abstract interpretation of the comparison skeleton over the order domain)", 1)
